@@ -41,7 +41,15 @@ THEOREMS = [
     "ESV.C05.resolve_lookup_none", "ESV.C05.resolve_rejects_dot_components",
 ]
 ROOT = G.ROOT
-FAKE_ROOT = "/R"
+FAKE_ROOT = "/T/R"      # two levels, like the real roots /tmp/<dir>
+# Which Lean function models `MacroResolutionOrderVisitor.visitStart`: "order" = the pinned code (BFS per root + merge);
+# "topo" = the verified repair `topoOrder` (stable Kahn: repeatedly the first vertex, in creation order, all of whose callees
+# are emitted).  After a `fix:` commit that replaces the merge by exactly that loop, set this to "topo" (the theorems
+# topoOrder_topological / topoOrder_complete then apply without guard) and drop the known finding macro_order_not_topological.
+ORDER_FIELD = os.environ.get("VERIF_C05_ORDER_FIELD", "order")
+# What `exists` means for the model of `_resolve_imported_file`: "tree" = os.path.exists (files and directories, the pinned code);
+# "tree_files" = os.path.isfile (after a repair of known finding import_candidate_is_directory)
+EXISTS_FIELD = os.environ.get("VERIF_C05_EXISTS", "tree")
 NOT_FOUND = re.compile(r"^Macro (.*) not found\.$")
 
 
@@ -62,7 +70,7 @@ def case_arg(case: dict, run_id: str) -> dict:
     return {"asts": case["files"], "dirs": case.get("dirs", []), "main": case["main"], "lookup": case.get("lookup", []), "run": run_id}
 
 
-def run_cases(pool: core.Pool, cases: list[dict], run_id: str, chunk: int = 20, timeout: float = 90.0) -> list[dict]:
+def run_cases(pool: core.Pool, cases: list[dict], run_id: str, chunk: int = 20, timeout: float = 90.0, retry: bool = True) -> list[dict]:
     args = [case_arg(c, run_id) for c in cases]
     chunks = [args[i:i + chunk] for i in range(0, len(args), chunk)]
     outs = pool.map("harness.impl_es:compile_layouts", chunks, timeout=timeout)
@@ -72,6 +80,11 @@ def run_cases(pool: core.Pool, cases: list[dict], run_id: str, chunk: int = 20, 
             res += o
         else:
             singles = pool.map("harness.impl_es:compile_layout", ch, timeout=timeout)
+            # a case that gave no answer alone is run once more with a 6x limit before it counts (busy machines)
+            again = [i for i, s in enumerate(singles) if no_answer(s) and not (isinstance(s, dict) and s.get("error") == "MemoryError")]
+            if again and retry:
+                for i, s in zip(again, pool.map("harness.impl_es:compile_layout", [ch[i] for i in again], timeout=timeout * 6)):
+                    singles[i] = s
             for s in singles:
                 res.append(s if isinstance(s, dict) else {"__exc__": "garbled"})
     return res
@@ -202,6 +215,16 @@ def fake(x: Any) -> Any:
     if isinstance(x, list):
         return [fake(y) for y in x]
     return x
+
+
+def fake_out(x: Any) -> Any:
+    """paths the real code returned: the root token as in `fake`, and the real parent of the roots (/tmp) as /T"""
+    if isinstance(x, list):
+        return [fake_out(y) for y in x]
+    y = fake(x)
+    if isinstance(y, str) and (y == "/tmp" or y.startswith("/tmp/")):
+        y = "/T" + y[4:]
+    return y
 
 
 def rel_of(path: str) -> str:
@@ -373,7 +396,7 @@ class Eval:
             if ast is None:
                 continue
             if e.get("imports"):   # nothing to resolve otherwise
-                self.requests.append({"op": "macro.resolve", "exists": fake(res["tree"]) + ["/"], "cwd": res.get("cwd", "/"),
+                self.requests.append({"op": "macro.resolve", "exists": fake(res[EXISTS_FIELD]) + ([] if EXISTS_FIELD != "tree" else ["/", "/T"]), "cwd": res.get("cwd", "/"),
                                       "dir": fake(e["dir"]), "lookups": fake(e["lookup"]), "imports": fake(e["imports"])})
                 self.tags.append(("resolve", e))
             if "in_macros" in e:
@@ -418,15 +441,18 @@ class Eval:
                 e, f = tag[1], tag[2]
                 self.stats["order_compared"] += 1
                 if "order" in e:
-                    if rep.get("order") != e["order"]:
-                        self.ties.append(("correspondence C05/order: macro_resolution_order differs from the Lean model", {"file": f, "impl": e["order"], "model": rep}))
+                    if rep.get(ORDER_FIELD) != e["order"]:
+                        hint = " (it equals the model of the repair, topoOrder: set ORDER_FIELD = 'topo')" if rep.get("topo") == e["order"] else ""
+                        self.ties.append(("correspondence C05/order: macro_resolution_order differs from the Lean model" + hint, {"file": f, "impl": e["order"], "model": rep}))
+                    if ORDER_FIELD != "order":
+                        continue
                     comp = rep.get("compile", {})
                     # how tight the guard of order_topological_partial is on the generated inputs (model side)
                     self.stats[f"guard_{rep.get('guard')}_model_compile_{'ok' if 'ok' in comp else 'fails'}"] += 1
                     m = NOT_FOUND.match(res.get("msg") or "") if res.get("error") == "SsbCompilerError" else None
                     if fe is e:
                         if comp.get("err") == "SsbCompilerError" and "name" in comp:
-                            if not m or m.group(1) != comp["name"]:
+                            if not m or m.group(1) not in comp.get("candidates", [comp["name"]]):
                                 self.ties.append(("correspondence C05/order: model predicts 'Macro not found', the compiler says something else",
                                                   {"file": f, "impl": [res.get("error"), res.get("msg")], "model": comp}))
                         elif m or res.get("error") == "ValueError" and comp.get("err") == "ValueError":
@@ -586,6 +612,35 @@ def shrink_case(case: dict, still_fails: Callable[[dict], bool], budget: int = 1
     return cur
 
 
+def resolve_fuzz(pool: core.Pool, drv: core.Driver, rnd: Any, n: int, run_id: str, stats: Counter) -> list[tuple[str, dict]]:
+    """correspondence of lean/ESV/Macro/Import.lean with the real `_resolve_imported_file` on odd path spellings"""
+    fcs = [dict(G.resolve_fuzz_case(rnd), run=run_id) for _ in range(n)]
+    outs = pool.map("harness.impl_es:resolve_many", fcs, timeout=60.0)
+    reqs, tags = [], []
+    for fc, o in zip(fcs, outs):
+        if not isinstance(o, dict) or "answers" not in o:
+            stats["resolve_fuzz_no_answer"] += 1
+            continue
+        for q, a in zip(fc["queries"], o["answers"]):
+            reqs.append({"op": "macro.resolve", "exists": fake(o[EXISTS_FIELD]) + ([] if EXISTS_FIELD != "tree" else ["/", "/T"]), "cwd": o.get("cwd", "/"), "dir": fake(q["dir"]),
+                         "lookups": fake(q["lookup"]), "imports": fake(q["imports"])})
+            tags.append((fc, q, a))
+    ties: list[tuple[str, dict]] = []
+    for (fc, q, a), rep in zip(tags, drv.batch(reqs) if reqs else []):
+        stats["resolve_fuzz_queries"] += 1
+        if "ok" in a:
+            stats["resolve_fuzz_ok"] += 1
+            good = rep.get("ok") == fake_out(a["ok"])
+        else:
+            stats["resolve_fuzz_" + a["err"]] += 1
+            want = "invalid" if "Invalid import" in a.get("msg", "") else ("notFound" if "was not found" in a.get("msg", "") else "?")
+            good = a["err"] == "SsbCompilerError" and rep.get("err") == want
+        if not good:
+            ties.append(("correspondence C05/resolve (direct queries): _resolve_imported_file and the Lean model differ",
+                         {"files": fc["files"], "dirs": fc["dirs"], "query": q, "impl": a, "model": rep}))
+    return ties
+
+
 def evaluate_single(case: dict, pool: core.Pool, drv: core.Driver | None, run_id: str) -> Eval:
     rs, irs = run_with_inline(pool, [case], run_id, timeout=40.0)
     ev = Eval(case, rs[0], irs[0])
@@ -736,7 +791,7 @@ def run(run: core.Run) -> int:
                 stats["orders_fail_although_all_call_chains_have_equal_length"] += 1
 
     try:
-        pos_results = run_cases(small_pool, posnest, run_id, chunk=1, timeout=12.0)
+        pos_results = run_cases(small_pool, posnest, run_id, chunk=1, timeout=12.0, retry=False)
         small_pool.close()
         pevs = [Eval(c, r, None) for c, r in zip(posnest, pos_results)]
         if drv is not None:
@@ -744,6 +799,11 @@ def run(run: core.Run) -> int:
                 ev.build_requests()
                 ev.finish(drv.batch(ev.requests) if ev.requests else [])
         report(pevs)
+        if drv is not None:
+            for what, detail in resolve_fuzz(pool, drv, rng, 60 if quick else 1500, run_id, stats):
+                tally["ties"] += 1
+                if tally["ties"] <= 3:
+                    run.broken_tie(what, detail)
         batch: list[dict] = []
         size = 0
         for g in all_groups:
